@@ -45,20 +45,27 @@ CONSTANTS
     OAllowed, QAllowed,               \* raw layers at which option o / its sibling q may be defined
     VRefAt, WRefAt, XRefAt, ORefAt,   \* raw layers at which the definition is "tag + reference to the next slot"
                                       \*   (chain o -> v -> w -> x -> v, the last one closes a cycle); literal elsewhere
+    OEmptyAllowed, VEmptyAllowed,     \* raw layers at which option o / variable v may be defined with an explicitly EMPTY value
+                                      \*   ('' for text, [] for a list): a definition that clears, which is not the same as no definition
     DecoyBlock,                       \* TRUE: the always-decoy layers of a slot are defined all at once (fewer states)
     OBuiltin,                         \* TRUE: option o has a built-in default value (q never has one)
-    OptKind,                          \* declared type of option o: "str" | "int" | "float" | "bool"
+    OptKind,                          \* declared type of option o: "str" | "int" | "float" | "bool" | "list"
     LitForm,                          \* "native" | "string": how numbers / booleans are written in the documents
     Family,                           \* name of the run (reporting only)
     Emit,                             \* TRUE: print every state as a JSON case
+    Replicated,                       \* TRUE: the driver also asks the REPLICATED description (FlowIRConcrete.instance()/replicate():
+                                      \*   the selected platform's layers flattened into the one description the runtime executes) --
+                                      \*   the layering is the same whichever view is asked: the answer for the platform the
+                                      \*   description was replicated for is Result(that platform)
     Sibling,                          \* TRUE: the package has a second component `e` in stage 0 that defines nothing itself
     HistLen                           \* 0: documents only; n > 0: every document is followed by every history of n
                                       \*   read-only calls on ONE object (the last one a query), see "Histories" below
 
 VARIABLES defs,                       \* [Slots -> SUBSET Raw]: the document
+          empties,                    \* [Slots -> SUBSET Raw], empties[s] \subseteq defs[s]: the definitions whose value is empty
           hist                        \* sequence of read-only calls made so far on the object holding the document,
                                       \*   each query with the answer it got
-vars == <<defs, hist>>
+vars == <<defs, empties, hist>>
 
 Slots     == {"o", "q", "v", "w", "x"}
 VarSlots  == {"v", "w", "x"}
@@ -145,8 +152,8 @@ RECURSIVE ChainV(_, _, _, _)
 ChainV(w, Q, s, seen) ==
     LET l == TopV(w, Q, s) IN
     IF l = "none" THEN [err |-> "undefined", chain |-> <<>>]
-    ELSE LET me == [s |-> s, l |-> l, code |-> Code(s, l)] IN
-         IF l \notin RefAt(s) THEN [err |-> "none", chain |-> <<me>>]
+    ELSE LET me == [s |-> s, l |-> l, code |-> Code(s, l), empty |-> (l \in empties[s])] IN
+         IF l \in empties[s] \/ l \notin RefAt(s) THEN [err |-> "none", chain |-> <<me>>]      \* a literal or the empty value ends the chain
          ELSE IF NextSlot(s) \in seen \cup {s} THEN [err |-> "cyclic", chain |-> <<me>>]
          ELSE LET rest == ChainV(w, Q, NextSlot(s), seen \cup {s})
               IN [err |-> rest.err, chain |-> <<me>> \o rest.chain]
@@ -172,20 +179,28 @@ ResultV(w, Q) == [errs  |-> ErrsV(w, Q),
 Result(Q) == ResultV(MainView, Q)
 
 ---------------------------------------------------------------------------
-Init == defs = [s \in Slots |-> {}] /\ hist = <<>>
+Init == defs = [s \in Slots |-> {}] /\ empties = [s \in Slots |-> {}] /\ hist = <<>>
 
 (* the document is written first (hist is empty), then calls are made on the object that holds it *)
 Define(s, l) == /\ hist = <<>>
                 /\ l \in Allowed(s) /\ l \notin defs[s]
                 /\ (DecoyBlock => l \notin AlwaysDecoy)
                 /\ defs' = [defs EXCEPT ![s] = @ \cup {l}]
-                /\ UNCHANGED hist
+                /\ UNCHANGED <<empties, hist>>
+
+(* a definition that clears: the layer defines the slot, with the empty value *)
+EmptyAllowed(s) == IF s = "o" THEN OEmptyAllowed ELSE IF s = "v" THEN VEmptyAllowed ELSE {}
+DefineEmpty(s, l) == /\ hist = <<>>
+                     /\ l \in EmptyAllowed(s) /\ l \in Allowed(s) /\ l \notin defs[s] /\ l \notin RefAt(s)
+                     /\ defs' = [defs EXCEPT ![s] = @ \cup {l}]
+                     /\ empties' = [empties EXCEPT ![s] = @ \cup {l}]
+                     /\ UNCHANGED hist
 
 DefineDecoys(s) == /\ hist = <<>>
                    /\ DecoyBlock /\ Allowed(s) \cap AlwaysDecoy # {}
                    /\ defs[s] \cap AlwaysDecoy = {}
                    /\ defs' = [defs EXCEPT ![s] = @ \cup (Allowed(s) \cap AlwaysDecoy)]
-                   /\ UNCHANGED hist
+                   /\ UNCHANGED <<empties, hist>>
 
 (* Histories.  The interface that reads a configuration: Query = get_component_configuration(comp, platform,      *)
 (* inject_missing_fields) (and get_component_variables), Instance = FlowIRConcrete.instance(platform,              *)
@@ -196,17 +211,18 @@ NoAnswer == [errs |-> {}, vals |-> <<>>, tops |-> <<>>, undef |-> {}]
 Query(Q, c, i) == /\ HistLen > 0 /\ Len(hist) < HistLen /\ (c = "e" => Sibling)
                   /\ hist' = Append(hist, [op |-> "query", plat |-> Q, comp |-> c, inject |-> i,
                                            exp |-> ResultV([comp |-> c, inject |-> i], Q)])
-                  /\ UNCHANGED defs
+                  /\ UNCHANGED <<defs, empties>>
 Instance(Q, i) == /\ HistLen > 0 /\ Len(hist) < HistLen - 1          \* the last call of a history is a query
                   /\ hist' = Append(hist, [op |-> "instance", plat |-> Q, comp |-> "-", inject |-> i, exp |-> NoAnswer])
-                  /\ UNCHANGED defs
+                  /\ UNCHANGED <<defs, empties>>
 Replicate(Q) == /\ HistLen > 0 /\ Len(hist) < HistLen - 1
                 /\ hist' = Append(hist, [op |-> "replicate", plat |-> Q, comp |-> "-", inject |-> TRUE, exp |-> NoAnswer])
-                /\ UNCHANGED defs
+                /\ UNCHANGED <<defs, empties>>
 
 Next == \/ \E s \in {"o", "q", "v", "w", "x"}, l \in {"dg", "ds", "p1g", "p1s", "ug", "us", "comp", "ovd", "ov1",
                        "p2g", "p2s", "p2so", "ov2", "dso", "p1so", "uso"} : Define(s, l)
         \/ \E s \in {"o", "q", "v", "w", "x"} : DefineDecoys(s)
+        \/ \E s \in {"o", "v"}, l \in {"dg", "ds", "p1g", "p1s", "ug", "us", "comp", "ovd", "ov1", "p2g", "ov2"} : DefineEmpty(s, l)
         \/ \E Q \in {"default", "p1"}, c \in {"c", "e"}, i \in {TRUE, FALSE} : Query(Q, c, i)
         \/ \E Q \in {"default", "p1"}, i \in {TRUE, FALSE} : Instance(Q, i)
         \/ \E Q \in {"default", "p1"} : Replicate(Q)
@@ -219,10 +235,11 @@ TypeOK == /\ \A s \in Slots : defs[s] \subseteq Allowed(s)
           /\ \A s \in VarSlots : "builtin" \notin Allowed(s)
           /\ \A s \in OptSlots : Allowed(s) \cap {"ug", "us", "uso", "builtin"} = {}
           /\ \A s \in Slots : RefAt(s) \subseteq Allowed(s)
+          /\ \A s \in Slots : empties[s] \subseteq defs[s] /\ empties[s] \cap RefAt(s) = {} /\ empties[s] \subseteq EmptyAllowed(s)
 
 (* reads do not write: a call never changes the document, so every recorded answer is still the layering of the  *)
 (* document, and the answer does not depend on what was called before                                            *)
-ReadsDoNotWrite == [][hist' # hist => defs' = defs]_vars
+ReadsDoNotWrite == [][hist' # hist => (defs' = defs /\ empties' = empties)]_vars
 AnswersAreLayering == \A n \in 1..Len(hist) :
                          hist[n].op = "query" => hist[n].exp = ResultV([comp |-> hist[n].comp, inject |-> hist[n].inject], hist[n].plat)
 (* the sibling never sees the component's own layers; without injection the built-in default never shows *)
@@ -258,12 +275,12 @@ HigherWins == [][\A Q \in Platforms, s \in Slots : \A l \in Eff(Q, s) :
 
 ---------------------------------------------------------------------------
 (* emission of every state for the conformance driver *)
-DefList == {[s |-> s, l |-> l, ref |-> (l \in RefAt(s)), code |-> Code(s, l), next |-> NextSlot(s)] :
+DefList == {[s |-> s, l |-> l, ref |-> (l \in RefAt(s) /\ l \notin empties[s]), empty |-> (l \in empties[s]), code |-> Code(s, l), next |-> NextSlot(s)] :
                s \in Slots, l \in Raw}
 Case == [family |-> Family, kind |-> OptKind, litform |-> LitForm, obuiltin |-> OBuiltin, args |-> ArgsUse,
          used |-> {s \in Slots : Used(s)},
          defs |-> {d \in DefList : d.l \in defs[d.s]},
-         sibling |-> Sibling, hist |-> hist,
+         sibling |-> Sibling, replicated |-> Replicated, hist |-> hist,
          exp |-> [Q \in Platforms |-> Result(Q)]]
 (* documents (HistLen = 0) are emitted as they are; with histories only the complete ones are emitted *)
 EmitCase == (Emit /\ Len(hist) = HistLen) => PrintT(ToJson(Case))
